@@ -954,7 +954,7 @@ PROPS = {
         "property_modules": ["Zlink.Properties.C13"], "lean_modules": ["Zlink.Properties.C13"],
         "theorems": ["C13.C13_total", "C13.C13_type_names_exact", "C13.C13_field_names_exact", "C13.C13_interface_names_complete",
                      "C13.C13_types_complete", "C13.C13_complete", "C13.C13_types_layout", "C13.C13_layout",
-                     "C13.C13_interface_names_sound", "C13.C13_sound_tree"],
+                     "C13.C13_interface_names_sound", "C13.C13_sound_tree", "C13.C13_literals"],
         "run": run_idl, "trusted_base": TB_COMMON,
         "assumptions": [
             "winnow's alt / separated / literal / take_while / multispace0 and str::trim behave as ported in Zlink/Model/Idl.lean (validated by the correspondence run: identical trees / rejections on every explored text)",
